@@ -146,7 +146,7 @@ fn main() {
 
     // Stages: (name, configurations, layer seeds, [(operations, bases)]).
     //  dims  - every dimension 2..=64 (SIMD lanes of 8 + remainder), short histories from the full base
-    //  main  - dims {2,8}, tight graph regime: quick <= 3 operations from all bases + 4 from b7; thorough <= 4 with layer seeds {1,2}, 5 with seed 1
+    //  main  - dims {2,8}, tight graph regime: quick <= 3 operations from all bases + 4 from b7 at dim 2; thorough <= 4 with layer seeds {1,2}, 5 with seed 1
     //  roomy - thorough only: second graph regime, <= 4 operations
     let all: Vec<&'static str> = BASES.to_vec();
     let all_dims: Vec<usize> = (2..=64).collect();
@@ -157,7 +157,8 @@ fn main() {
     let stages: Vec<Stage> = run.tier.pick(
         vec![
             ("dims", dims_cfgs.clone(), vec![1], vec![(0, vec!["b7"]), (1, vec!["b7"])]),
-            ("main", tight.clone(), vec![1], vec![(0, all.clone()), (1, all.clone()), (2, all.clone()), (3, all.clone()), (4, vec!["b7"])]),
+            ("main", tight.clone(), vec![1], vec![(0, all.clone()), (1, all.clone()), (2, all.clone()), (3, all.clone())]),
+            ("main", tight.iter().filter(|c| c.dim == 2).cloned().collect(), vec![1], vec![(4, vec!["b7"])]),
         ],
         vec![
             ("dims", dims_cfgs.clone(), vec![1, 2], vec![(0, vec!["b4", "b7"]), (1, vec!["b4", "b7"]), (2, vec!["b4", "b7"])]),
